@@ -140,6 +140,21 @@ inductive Flow.Exec : Flow → (Nat → Bool) → Bool → Flow.Out → Prop whe
 /-- the abstract state covers the concrete one -/
 def Flow.Covers (S : List Nat) (c : Nat → Bool) : Prop := ∀ x, c x = true → x ∈ S
 
+theorem Flow.arun_seq (fuel : Nat) (a b : Flow) (S : List Nat) :
+    arun fuel (.seq a b) S = ((arun fuel b (arun fuel a S).1).1, (arun fuel a S).2 || (arun fuel b (arun fuel a S).1).2) := by
+  simp only [arun]
+
+theorem Flow.arun_ite (fuel : Nat) (a b : Flow) (S : List Nat) :
+    arun fuel (.ite a b) S = ((arun fuel a S).1 ++ (arun fuel b S).1, (arun fuel a S).2 || (arun fuel b S).2) := by
+  simp only [arun]
+
+theorem Flow.arun_loop (fuel : Nat) (a : Flow) (S : List Nat) :
+    arun fuel (.loop a) S =
+      if (arun fuel a (iterJoin (fun acc => (arun fuel a acc).1) fuel S)).1.all ((iterJoin (fun acc => (arun fuel a acc).1) fuel S).contains ·)
+      then (iterJoin (fun acc => (arun fuel a acc).1) fuel S, (arun fuel a (iterJoin (fun acc => (arun fuel a acc).1) fuel S)).2)
+      else ([], true) := by
+  simp only [arun]
+
 theorem Flow.iterJoin_mono (step : List Nat → List Nat) (k : Nat) : ∀ S x, x ∈ S → x ∈ iterJoin step k S := by
   induction k with
   | zero => intro S x h; simpa [iterJoin] using h
@@ -228,28 +243,30 @@ theorem Flow.sound (fuel : Nat) (f : Flow) : ∀ (S : List Nat) (c : Nat → Boo
     exact ⟨rfl, fun c' hc' => by cases hc'⟩
   | seq a b iha ihb =>
     intro S c hc hflag m o h
-    simp only [arun, Bool.or_eq_false_iff] at hflag
+    rw [Flow.arun_seq] at hflag ⊢
+    simp only [Bool.or_eq_false_iff] at hflag
     cases h with
     | seqNormal h1 h2 =>
       obtain ⟨hm1, hn1⟩ := iha S c hc hflag.1 _ _ h1
       obtain ⟨hm2, hn2⟩ := ihb _ _ (hn1 _ rfl) hflag.2 _ _ h2
-      exact ⟨by simp [hm1, hm2], fun c' hc' => by simpa [arun] using hn2 c' hc'⟩
+      exact ⟨by simp [hm1, hm2], fun c' hc' => hn2 c' hc'⟩
     | seqStop h1 =>
       obtain ⟨hm1, _⟩ := iha S c hc hflag.1 _ _ h1
       exact ⟨hm1, fun c' hc' => by cases hc'⟩
   | ite a b iha ihb =>
     intro S c hc hflag m o h
-    simp only [arun, Bool.or_eq_false_iff] at hflag
+    rw [Flow.arun_ite] at hflag ⊢
+    simp only [Bool.or_eq_false_iff] at hflag
     cases h with
     | iteL h1 =>
       obtain ⟨hm, hn⟩ := iha S c hc hflag.1 _ _ h1
-      exact ⟨hm, fun c' hc' x hx => by simp only [arun]; exact List.mem_append_left _ (hn c' hc' x hx)⟩
+      exact ⟨hm, fun c' hc' x hx => List.mem_append_left _ (hn c' hc' x hx)⟩
     | iteR h1 =>
       obtain ⟨hm, hn⟩ := ihb S c hc hflag.2 _ _ h1
-      exact ⟨hm, fun c' hc' x hx => by simp only [arun]; exact List.mem_append_right _ (hn c' hc' x hx)⟩
+      exact ⟨hm, fun c' hc' x hx => List.mem_append_right _ (hn c' hc' x hx)⟩
   | loop a iha =>
     intro S c hc hflag m o h
-    simp only [arun] at hflag ⊢
+    rw [Flow.arun_loop] at hflag ⊢
     split at hflag
     · rename_i hpost
       rw [if_pos hpost]
